@@ -19,6 +19,7 @@ EXPLANATION = (
     "C05.5 join (and the handle's Drop) read/free the shared block only after observing the exit word != UNFINISHED with a load of ordering >= Acquire made after the wait returned (re-check loop), and a thread that frees its own join block resets its clear-tid address first (so its exit write cannot land in a recycled block - another thread's exit word); "
     "C05.6 clone flags contain VM|FS|FILES|SIGHAND|THREAD|SETTLS|CHILD_CLEARTID, the child-tid argument is the address of the exit word, the exit word starts as UNFINISHED != 0 and waits expect exactly that value, with the futex flavour of the kernel's wake; "
     "C05.7 the x86_64 trampoline (aarch64 in the thorough tier) puts syscall number, flags, new stack, child-tid and TLS in the registers the ABI wants and the start function and its argument reach the indirect call. "
+    "C05.1 also: the clone call is attempted once (no retry loop around it), so a refusal is returned. "
     "NOT decided: that a created thread really starts/finishes (kernel), timing of join vs exit beyond these ordering obligations.")
 ASSUMPTIONS = ["CLONE_CHILD_CLEARTID: the kernel stores 0 to the child-tid word and futex-wakes it when the thread exits", "System V x86_64 / AAPCS64 calling conventions"]
 
